@@ -594,6 +594,9 @@ Definition execute_body (c : cfg) (r : req) (disc : option nat) (s : st) (a : ap
           else 0%Z in
         if (size =? 0)%Z then None
         else if t_wrote_header t then None      (* ... and not self.wrote_header *)
+        else if negb (has_body t) then None     (* ... and self.has_body (fix d117733): after a 1xx/204/304
+                                                   status the wrapper is iterated like any iterable, write()
+                                                   drops every block and the task closes the file *)
         else
           let t :=
             if match cl with Some n => negb (n =? size)%Z | None => true end then
